@@ -29,12 +29,13 @@ ASSUMPTIONS = ['numpy.linalg.pinv is trusted', 'a measurement participates iff |
 
 KINDS = ['identity', 'scaled', 'prefix', 'ranges', 'gensquare', 'gentall', 'diff', 'ones_e1', 'identity_total', 'stacked', 'hadamard', 'total_diff']
 WRAPS = ['dense', 'sparse', 'linop']
+TYPED_WRAPS = ['int64', 'bool', 'float32', 'sparse-int64']   # element types of the stored matrix (sizes <= 8 only)
 SIZES = [1, 2, 3, 4, 8, 16, 32, 64]
 NOISES = [0.5, 1.0, 3.0]
 
 
 def bounds(tier):
-    return {'sizes': SIZES, 'kinds': KINDS, 'wrappings': WRAPS, 'noise_scales': NOISES, 'N': [1, 7, 1000],
+    return {'sizes': SIZES, 'kinds': KINDS, 'wrappings': WRAPS + TYPED_WRAPS, 'noise_scales': NOISES, 'N': [1, 7, 1000],
             'pairs': 'all ordered pairs of kinds, sizes (4,8)' + ('' if tier == 'quick' else ' and (3,16), (32,2)')}
 
 
@@ -93,7 +94,19 @@ def matrix(kind, n, rng):
     raise ValueError(kind)
 
 
+TYPED = {'int64': np.int64, 'bool': bool, 'float32': np.float32, 'sparse-int64': np.int64}
+
+
 def wrap(w, Q):
+    """the element-type wrappings store the same matrix with another dtype; only where that is exact (otherwise the dense float64 matrix)"""
+    if w in TYPED:
+        Qt = Q.astype(TYPED[w])
+        if not np.array_equal(Qt.astype(float), Q):
+            return Q
+        if w == 'sparse-int64':
+            from scipy import sparse
+            return sparse.csr_matrix(Qt)
+        return Qt
     return M.wrap(w, Q)
 
 
@@ -308,7 +321,7 @@ def jobs(tier, seed):
 def cases_of(job):
     if job['mode'] == 'single':
         for n in SIZES:
-            for w in WRAPS:
+            for w in WRAPS + (TYPED_WRAPS if n in (2, 8) else []):
                 for noise in NOISES:
                     for N in [1, 7, 1000]:
                         for noisy in (True, False):
